@@ -5,7 +5,6 @@
   `write_blocks`).  CUESHEET bodies are modelled in `Model/Cuesheet.lean`.
 -/
 import FlacModel.Model.Cuesheet
-import FlacModel.Gen.EncConst
 
 namespace Flac
 open Flac.Gen
